@@ -1,0 +1,26 @@
+//go:build verif
+
+package queue
+
+import (
+	"os"
+	"strings"
+	"time"
+)
+
+// verifTuneSQLite lets the verification harness shorten the WAL checkpoint
+// interval of a child process (VERIF_SQLITE_CHECKPOINT_INTERVAL=50ms) so that
+// crash points inside checkpoints are reachable in short runs.
+func verifTuneSQLite(s *SQLiteStore) {
+	raw := strings.TrimSpace(os.Getenv("VERIF_SQLITE_CHECKPOINT_INTERVAL"))
+	if raw == "" {
+		return
+	}
+	if d, err := time.ParseDuration(raw); err == nil && d > 0 {
+		s.checkpointInterval = d
+	}
+}
+
+// VerifCheckpoint runs one passive WAL checkpoint (the body of the background
+// checkpoint loop).
+func (s *SQLiteStore) VerifCheckpoint() error { return s.checkpointPassive() }
